@@ -146,7 +146,7 @@ Proof. exact run_announce_once. Qed.
     OUR_CHANNEL_READY, WITH OR WITHOUT WAITING_FOR_BATCH -- never touches the stored points and
     announces nothing; it is a no-op or closes the channel *)
 Theorem C05_channel_ready_points_immutable : forall secret point pub point_eqb (s : st secret point) p,
-  closed s = false ->
+  closed s = false -> disconnected s = false ->
   (chan_ready (hsk s) = true \/ (their_ready (hsk s) = true /\ our_ready (hsk s) = false)) ->
   let s' := fst (step secret point pub point_eqb s (ORecvChannelReady p)) in
   let evs := snd (step secret point pub point_eqb s (ORecvChannelReady p)) in
@@ -155,13 +155,14 @@ Theorem C05_channel_ready_points_immutable : forall secret point pub point_eqb (
   (closed s' = false -> s' = s /\ evs = []).
 Proof. exact channel_ready_points_immutable. Qed.
 
-(** channel_reestablish, in ANY disconnected state: the channel resumes only if the peer's two
+(** [FundedChannel::channel_reestablish] ([reest_core]; the step then also handles a channel_ready kept
+    by the lnd workaround), in ANY disconnected state: the channel resumes only if the peer's two
     numbers are ours or ours-1 (with a matching proof secret), resuming changes no number, and the
     only things done are retransmissions of the last revoke_and_ack / commitment_signed *)
-Theorem C05_reestablish_adjacent_only : forall secret point pub point_eqb (s : st secret point) nl nr sc,
+Theorem C05_reestablish_adjacent_only : forall secret point (s : st secret point) nl nr sc,
   closed s = false -> disconnected s = true -> chan_ready (hsk s) = true ->
-  let s' := fst (step secret point pub point_eqb s (ORecvReest nl nr sc)) in
-  let evs := snd (step secret point pub point_eqb s (ORecvReest nl nr sc)) in
+  let s' := fst (reest_core secret point s nl nr sc) in
+  let evs := snd (reest_core secret point s nl nr sc) in
   let our := INITIAL - (holder_next s + 1) in
   let ncp := INITIAL - cp_next s + (if awaiting_rr s then 1 else 0) in
   closed s' = false -> disconnected s' = false ->
@@ -231,7 +232,9 @@ Example C05_run_nontrivial :
     [ORecvChannelReady 101;        (* early channel_ready of a 0-conf peer while WAITING_FOR_BATCH *)
      ORecvChannelReady 555;        (* a re-sent one with a different point would close: shown separately *)
      OResign] =
-  [Announce INITIAL 100; Announce (INITIAL - 1) 101; SignHolder INITIAL; SignHolder INITIAL].
+  (* the forged channel_ready closes the channel; the batch funding was never broadcast, so nothing is
+     signed at that point; [OResign] models a later explicit signing of the only commitment *)
+  [Announce INITIAL 100; Announce (INITIAL - 1) 101; SignHolder INITIAL].
 Proof. vm_compute. reflexivity. Qed.
 
 Example C05_run_nontrivial_2 :
